@@ -82,7 +82,8 @@ class RoutineDict(TypedDict):
 
 
 def parse_pos_mark_arg(arg_str: str) -> tuple[int, int]:
-    arg_str_arr = arg_str.split(".")
+    # Whole tile positions may be given as JSON numbers.
+    arg_str_arr = str(arg_str).split(".")
     if len(arg_str_arr) < 2:
         return exps_int(arg_str), 0
     if arg_str_arr[1] != "5" or len(arg_str_arr) > 2:
